@@ -209,6 +209,8 @@ class RefSolver(object):
                     self.ncheck += 1
                     if self.args.delay:
                         time.sleep(self.args.delay / 1000.0)
+                    if self.args.die_on and any(n == self.args.die_on for fr in self.frames for a in fr for (n, _) in reffv(a)):
+                        os._exit(3)         # the process dies on queries that mention this symbol
                     if mode == "crash":
                         os._exit(3)
                     if mode == "exit":
@@ -286,6 +288,7 @@ def main():
     ap.add_argument("--card", type=int, default=2)
     ap.add_argument("--start-delay", type=int, default=0)
     ap.add_argument("--wrap", action="store_true")
+    ap.add_argument("--die-on", default=None)
     args = ap.parse_args()
     if args.start_delay:
         time.sleep(args.start_delay / 1000.0)
